@@ -3,7 +3,15 @@
 A case is a JSON-able description: `on` (1 or 2 key columns), 1..4 inputs each a scalar or a table {key -> value} over a subset
 of 4 keys, the subset of inputs with defaults, and for the previously computed keys an expiry state in {past, future, None}
 (absent keys are simply not in the data / expiry tables).  f is a counting stub.  The oracle is a set intersection / union over the
-key sets followed by a sort.  No NaN keys (D1: dictable.join does not terminate on distinct NaN keys); still, every chunk of cases runs
+key sets followed by a sort.
+
+Which inputs are outer-joined (the statement: "an input named in `defaults`"; perdictable's docstring: "if a default is provided for
+a parameter"): perdictable(f, on, defaults=None) takes the wrapped function's own default arguments as the defaults, an explicit
+dict - the empty one included - names exactly its keys.  `fdefaults` in a case gives the counting stub default arguments, `omit`
+leaves such a parameter out of the call altogether (f then sees its default), `opts` are further perdictable keywords that must not
+change any clause of the statement (renames={} / if_none / output_is_input / include_inputs, for a stub that takes no `data`), and
+`vcols` names the value column of a table input `data`, an arbitrary single name, or one of two columns picked by renames=.
+No NaN keys (D1: dictable.join does not terminate on distinct NaN keys); still, every chunk of cases runs
 in a forked child with a hard timeout."""
 import datetime, itertools, random, warnings
 from rac.common import Collector, call_with_timeout
@@ -62,9 +70,22 @@ def expected_join(on, inputs, defaults):
     return out
 
 
-def stub(names, log):
-    src = 'lambda %s: (log.append((%s)), "|".join(str(v) for v in (%s)))[1]' % (', '.join(names), ''.join(n + ', ' for n in names), ''.join(n + ', ' for n in names))
+def stub(names, log, fdefaults=None):
+    """counting stub over the parameters `names`; those in fdefaults get that default argument (they come last in the signature)"""
+    fdefaults = fdefaults or {}
+    sig = [n for n in names if n not in fdefaults] + ['%s=%r' % (n, fdefaults[n]) for n in names if n in fdefaults]
+    src = 'lambda %s: (log.append((%s)), "|".join(str(v) for v in (%s)))[1]' % (', '.join(sig), ''.join(n + ', ' for n in names), ''.join(n + ', ' for n in names))
     return eval(src, dict(log=log))
+
+
+def vcol_of(case, n):
+    """-> (name of the value column of table input n, name of a decoy column or None)"""
+    v = (case.get('vcols') or {}).get(n)
+    if v is None:
+        return n, None
+    if isinstance(v, list):
+        return v[0], v[1]
+    return v, None
 
 
 def _quiet():
@@ -75,18 +96,41 @@ def _quiet():
 def check_case(c, case):
     from pyg_base import perdictable, join, is_dictable, dictable
     _quiet()
-    on, inputs, defaults, cache = case['on'], case['inputs'], case.get('defaults') or {}, case.get('cache') or []
-    names = list(inputs)
+    on, cache = case['on'], case.get('cache') or []
+    fdefaults, omit, opts = case.get('fdefaults') or {}, case.get('omit') or [], dict(case.get('opts') or {})
+    names = list(case['inputs'])                                                 # the parameters of f
+    inputs = {n: v for n, v in case['inputs'].items() if n not in omit}          # what the call passes
+    given = case.get('defaults')
+    jdefaults = dict(given or {})                                                # join(inputs, on, defaults): no function in sight
+    defaults = dict(fdefaults) if given is None else dict(given)                 # perdictable: None -> the function's own defaults
     alpha = ':on-order-not-alphabetical' if list(on) != sorted(on) else ''
-    txt = 'on=%r inputs=%r defaults=%r previously computed=%r' % (on, inputs, defaults, cache)
+    fd = ':fn-defaults' if fdefaults else ''
+    txt = 'on=%r inputs=%r defaults=%r previously computed=%r' % (on, inputs, given, cache)
+    if fdefaults or omit or opts or case.get('vcols'):
+        txt += ' f defaults=%r omitted=%r options=%r value columns=%r' % (fdefaults, omit, opts, case.get('vcols'))
+    renames = {n: vcol_of(case, n)[0] for n in inputs if vcol_of(case, n)[1]}
+    if renames:
+        opts['renames'] = renames
+
+    def table(n, spec):
+        col, decoy = vcol_of(case, n)
+        t = make_table(on, n, spec[1], col=col, order=spec[2] if len(spec) > 2 else 'on')
+        if decoy:
+            t[decoy] = ['decoy'] * len(t)
+        return t
 
     def args():
-        return {n: make_table(on, n, spec[1], order=spec[2] if len(spec) > 2 else 'on') if is_table(spec) else spec for n, spec in inputs.items()}
-    exp = expected_join(on, inputs, defaults)
+        return {n: table(n, spec) if is_table(spec) else spec for n, spec in inputs.items()}
+    exp = expected_join(on, inputs, jdefaults)
     # ---- join(inputs, on, defaults)
     try:
-        j = join(args(), on=list(on) if len(on) > 1 else on[0], defaults=dict(defaults))
-        if exp is None:
+        jkw = dict(defaults=None if given is None else dict(given))
+        if 'renames' in opts:
+            jkw['renames'] = opts['renames']
+        j = join(args(), on=list(on) if len(on) > 1 else on[0], **jkw)
+        if not inputs:
+            pass                                                                 # every parameter left to its default argument: nothing to join
+        elif exp is None:
             rows = [dict(r) for r in j]
             c.check(len(rows) == 1 and rows[0] == dict(inputs), 'C20:join:scalars', 'join of scalars %s gives rows %r' % (txt, rows), case)
         else:
@@ -99,11 +143,13 @@ def check_case(c, case):
         c.check(False, 'C20:join:raises', 'join %s raised %r' % (txt, e), case)
     # ---- perdictable(f, on, defaults)(**inputs, data, expiry)
     log = []
-    f = stub(names, log)
-    kw = dict(on=list(on) if len(on) > 1 else on[0])
-    if case.get('defaults') is not None:
-        kw['defaults'] = dict(defaults)
+    f = stub(names, log, fdefaults)
+    kw = dict(on=list(on) if len(on) > 1 else on[0], **opts)
+    if given is not None:
+        kw['defaults'] = dict(given)
     p = perdictable(f, **kw)
+    exp = expected_join(on, inputs, defaults)
+    full = lambda row: dict({n: fdefaults[n] for n in omit}, **row)              # noqa: the arguments f sees
     call = args()
     state = {kt(k): s for k, s in cache}
     if cache:
@@ -112,18 +158,18 @@ def check_case(c, case):
     try:
         r = p(**call)
     except Exception as e:      # noqa
-        c.check(False, 'C20:raises', 'perdictable(f, on=%r%s)(...) %s raised %r' % (on, ', defaults=%r' % defaults if 'defaults' in kw else '', txt, e), case)
+        c.check(False, 'C20:raises' + fd, 'perdictable(f, on=%r%s)(...) %s raised %r' % (on, ', defaults=%r' % given if 'defaults' in kw else '', txt, e), case)
         return
     if exp is None:
-        want = '|'.join(str(inputs[n]) for n in names)
-        c.check(r == want, 'C20:scalars', 'all inputs scalar %s: returned %r, f(...) = %r' % (txt, r, want), case)
-        c.check(len(log) == 1, 'C20:calls', 'all inputs scalar %s: f called %d times' % (txt, len(log)), case)
+        want = '|'.join(str(full(inputs)[n]) for n in names)
+        c.check(r == want, 'C20:scalars' + fd, 'all inputs scalar %s: returned %r, f(...) = %r' % (txt, r, want), case)
+        c.check(len(log) == 1, 'C20:calls' + fd, 'all inputs scalar %s: f called %d times' % (txt, len(log)), case)
         return
     if len(exp) == 0:
-        c.check(r is None or (is_dictable(r) and len(r) == 0), 'C20:rows:empty-join', 'no key is present in every table %s: returned %r' % (txt, r), case)
-        c.check(len(log) == 0, 'C20:calls', 'no key is present in every table %s: f called %d times' % (txt, len(log)), case)
+        c.check(r is None or (is_dictable(r) and len(r) == 0), 'C20:rows:empty-join' + fd, 'no key is present in every table %s: returned %r' % (txt, r), case)
+        c.check(len(log) == 0, 'C20:calls' + fd, 'no key is present in every table %s: f called %d times' % (txt, len(log)), case)
         return
-    if not c.check(is_dictable(r), 'C20:rows:value', '%s returned %r, expected a table' % (txt, r), case):
+    if not c.check(is_dictable(r), 'C20:rows:value' + fd, '%s returned %r, expected a table' % (txt, r), case):
         return
     rows = [dict(x) for x in r]
     got = {tuple(x[col] for col in on): x.get('data') for x in rows}
@@ -132,19 +178,20 @@ def check_case(c, case):
         if state.get(k) == 'past':
             want[k] = 'old_' + '_'.join(k)
         else:
-            want[k] = '|'.join(str(row[n]) for n in names)
-            calls.append(tuple(row[n] for n in names))
-    c.check(got == want and len(rows) == len(want), 'C20:rows:value', '%s returned %r, expected %r' % (txt, got, want), case)
+            want[k] = '|'.join(str(full(row)[n]) for n in names)
+            calls.append(tuple(full(row)[n] for n in names))
+    c.check(got == want and len(rows) == len(want), 'C20:rows:value' + fd, '%s returned %r, expected %r' % (txt, got, want), case)
     got_keys = [tuple(x[col] for col in on) for x in rows]
     c.check(sorted(got_keys) != sorted(want) or got_keys == sorted(want), 'C20:sorted' + alpha, '%s returned keys in order %r, expected sorted by %r: %r' % (txt, got_keys, on, sorted(want)), case)
-    c.check(sorted(log, key=repr) == sorted(calls, key=repr), 'C20:calls', '%s: f was called with %r, expected exactly once for each of %r' % (txt, sorted(log, key=repr), sorted(calls, key=repr)), case)
+    c.check(sorted(log, key=repr) == sorted(calls, key=repr), 'C20:calls' + fd, '%s: f was called with %r, expected exactly once for each of %r' % (txt, sorted(log, key=repr), sorted(calls, key=repr)), case)
 
 
 def run_chunk(cases):
     c = Collector('C20', 'chunk')
     for case in cases:
         check_case(c, case)
-        exp = expected_join(case['on'], case['inputs'], case.get('defaults') or {})
+        exp = expected_join(case['on'], {n: v for n, v in case['inputs'].items() if n not in (case.get('omit') or [])},
+                            (case.get('fdefaults') or {}) if case.get('defaults') is None else case['defaults'])
         c.case(repr(case), nontrivial=bool(exp), sample=None)
     return dict(evaluations=c.evaluations, distinct=list(c.distinct), violations=c.violations)
 
@@ -202,6 +249,77 @@ def all_cases(rng, quick):
                         yield case
 
 
+# ---- wrapped functions with default arguments; defaults=None / {} / explicit; falsy-vs-None keywords
+OPTS = [None, None, None, None, {'renames': {}}, {'if_none': True}, {'if_none': ['data']}, {'if_none': False}, {'output_is_input': False}, {'output_is_input': []},
+        {'output_is_input': ['data']}, {'include_inputs': True}, {'include_inputs': False}, {'renames': None, 'if_none': False, 'output_is_input': True, 'include_inputs': False}]
+
+
+def nonempty_subsets(names):
+    return [list(c) for r in range(1, len(names) + 1) for c in itertools.combinations(names, r)]
+
+
+def defaults_modes(rng, names, all_modes):
+    """defaults=None (the function's own defaults apply), defaults={} (nothing is outer-joined), explicit non-empty subsets"""
+    explicit = [{n: 'def' + n.upper() for n in sub} for sub in nonempty_subsets(names)]
+    return [None, {}] + (explicit if all_modes else [rng.choice(explicit)])
+
+
+def decorate(rng, case, quick):
+    """the case itself, sometimes with other keywords / value column names, sometimes followed by a variant with previously computed keys"""
+    case = dict(case, cache=[])
+    opts = rng.choice(OPTS)
+    if opts:
+        case['opts'] = opts
+    tabs = [n for n, v in case['inputs'].items() if is_table(v) and v[1] and n not in (case.get('omit') or [])]     # (dictable(data=[]) is no column)
+    if tabs and rng.random() < .3:
+        n = rng.choice(tabs)
+        case['vcols'] = {n: rng.choice(['data', 'zz_' + n, ['zz_' + n, 'decoy_' + n]])}
+    yield case
+    if rng.random() < (.2 if quick else .6):
+        inputs = {n: v for n, v in case['inputs'].items() if n not in (case.get('omit') or [])}
+        exp = expected_join(case['on'], inputs, (case.get('fdefaults') or {}) if case.get('defaults') is None else case['defaults'])
+        if exp:
+            K = [list(k) if len(k) > 1 else k[0] for k, _ in exp]
+            a = [rng.choice(['absent', 'past', 'past', 'future', 'none']) for _ in K]
+            cache = [[k, st] for k, st in zip(K, a) if st != 'absent']
+            rng.shuffle(cache)
+            if cache:
+                yield dict(case, cache=cache)
+
+
+def fn_default_cases(rng, quick):
+    sub3 = [tuple(i for i in range(3) if m >> i & 1) for m in range(8)]
+    on = ['key']
+    # (1) two parameters, every non-empty subset of them with a default argument, both passed as tables over every pair of subsets of 3 keys
+    for sa, sb in itertools.product(sub3, repeat=2):
+        for fsub in nonempty_subsets(['a', 'b']):
+            inputs = {'a': table_spec(rng, on, 'a', sa), 'b': table_spec(rng, on, 'b', sb)}
+            for mode in defaults_modes(rng, ['a', 'b'], True):
+                yield from decorate(rng, dict(on=on, inputs=inputs, defaults=mode, fdefaults={n: 'f' + n.upper() for n in fsub}), quick)
+    # (2) one of them a scalar, or left out of the call (f then uses its default argument)
+    for s1 in sub3:
+        for tab, other in (('a', 'b'), ('b', 'a')):
+            for fsub in nonempty_subsets(['a', 'b']):
+                fdefaults = {n: 'f' + n.upper() for n in fsub}
+                for omit in ([], [other]) if other in fsub else ([],):
+                    inputs = {n: (table_spec(rng, on, n, s1) if n == tab else n.upper()) for n in ('a', 'b')}
+                    for mode in defaults_modes(rng, ['a', 'b'], not quick):
+                        yield from decorate(rng, dict(on=on, inputs=inputs, defaults=mode, fdefaults=fdefaults, omit=omit), quick)
+    for fsub in nonempty_subsets(['a', 'b']):       # no table at all
+        for omit in [[]] + nonempty_subsets(fsub):
+            for mode in (None, {}, {'a': 'defA'}):
+                yield dict(on=on, inputs={'a': 'A', 'b': 'B'}, defaults=mode, fdefaults={n: 'f' + n.upper() for n in fsub}, omit=omit, cache=[])
+    # (3) seeded: 2-4 parameters, one or two key columns, 4 keys
+    for _ in range(160 if quick else 6000):
+        on = rng.choice([['key'], ['key'], ['j', 'k'], ['k', 'j']])
+        names = NAMES[:rng.choice([2, 3, 3, 4])]
+        fsub = rng.choice(nonempty_subsets(names))
+        inputs = {n: (n.upper() if rng.random() < .2 else table_spec(rng, on, n, rng.choice(all_subsets()[1:] if rng.random() < .9 else all_subsets()))) for n in names}
+        omit = [n for n in fsub if rng.random() < .15]
+        mode = rng.choice([None, None, {}, {}, {n: 'def' + n.upper() for n in rng.choice(nonempty_subsets(names))}])
+        yield from decorate(rng, dict(on=on, inputs=inputs, defaults=mode, fdefaults={n: 'f' + n.upper() for n in fsub}, omit=omit), quick)
+
+
 def run(tier, seed):
     rng = random.Random(seed)
     quick = tier == 'quick'
@@ -209,11 +327,17 @@ def run(tier, seed):
                   'keys (empty table included, rows shuffled)%s, seeded combinations of 3 and 4 inputs; every subset of inputs with defaults (defaults={} / not given alternate when the subset is empty); '
                   'previously computed keys: every assignment of {absent, past, future, None} to the joined keys when there are few, a seeded sample otherwise; both join(inputs, on, defaults) and '
                   'perdictable(f, on, defaults)(**inputs, data=, expiry=) with a counting stub f. Oracle: intersection of the key sets of the tables without defaults (union when every table has a default), '
-                  'defaults filled in, sorted; past-expiry rows keep the supplied value, all others are computed once. Non-trivial: at least one joined row; distinct by case'
-                  % (' (a 15% sample of the 2-input combinations for two key columns)' if quick else ''),
+                  'defaults filled in, sorted; past-expiry rows keep the supplied value, all others are computed once. '
+                  'Wrapped functions WITH default arguments (every non-empty subset of the parameters a, b): both passed as tables over every pair of subsets of 3 keys, one a scalar, one left '
+                  'out of the call, none a table; x defaults=None (the function defaults name the outer-joined inputs), defaults={} (none is), explicit non-empty subsets (every one when both are tables, %s otherwise); seeded cases with 2-4 '
+                  'parameters on one or two key columns; a third of the cases with one more keyword that must change nothing (renames={}, if_none True/False/["data"], output_is_input '
+                  'False/[]/["data"], include_inputs) or with the value column of a table named data / arbitrarily / picked by renames=; a fifth followed by a variant with previously computed keys. '
+                  'Non-trivial: at least one joined row; distinct by case'
+                  % (' (a 15% sample of the 2-input combinations for two key columns)' if quick else '', 'one seeded of the three' if quick else 'every one'),
                   exhaustive=False, scope='1-2 inputs x 17 choices each (all), 3-4 inputs sampled; all default subsets; expiry assignments over <= 4 keys (sampled when many)')
     import pyg_base                                     # noqa  imported before forking so that the children do not pay for it
     cases = list(all_cases(rng, quick))
+    cases += list(fn_default_cases(rng, quick))         # drawn after every older draw: the older cases stay what they were for a given seed
     size = 400
     chunks = [cases[i:i + size] for i in range(0, len(cases), size)]
     for chunk, (status, res) in zip(chunks, run_chunks(chunks, nproc=1 if quick else 12, timeout=180)):
